@@ -100,7 +100,38 @@ def h18a(c, steps=2):
         c.ob("client-a.unaffected-by-b", ca.transaction_count_total == total)
 
 
+class _OnlyCounts:
+    """forwards everything to the real context but keeps only the transaction-count obligations of the C12 harnesses"""
+
+    def __init__(self, c):
+        object.__setattr__(self, "_c", c)
+
+    def __getattr__(self, k):
+        return getattr(self._c, k)
+
+    def __setattr__(self, k, v):
+        setattr(self._c, k, v)
+
+    def ob(self, name, cond, **tags):
+        if name.startswith("txn-count") or name.startswith("no-exception"):
+            self._c.ob(name, cond, **tags)
+
+
+def h18b_sim(c, n=2):
+    """counts reported by the real SimulatedExecution handlers per package kind and failure pattern (C12 harness, count obligations only)"""
+    from .c12 import h12_sim
+    h12_sim(_OnlyCounts(c), n=n)
+
+
+def h18b_live(c, n=2):
+    """counts reported by the real BetfairExecution handlers against the exchange double (C12 harness, count obligations only)"""
+    from .c12 import h12_live
+    h12_live(_OnlyCounts(c), n=n)
+
+
 HARNESSES = [
+    Harness("H18b-sim", h18b_sim, quick=dict(n=2), pattern="P5 fault schedule as a variable", requires=["handled"]),
+    Harness("H18b-live", h18b_live, quick=dict(n=2), pattern="P5 fault schedule as a variable", requires=["handled"], max_paths=(300000, 3000000)),
     Harness("H18a", h18a, quick=dict(steps=2), thorough=dict(steps=3), pattern="P2 inductive step (+ short history)", clock_modules=("flumine.controls.clientcontrols",),
             requires=["new-hour", "accepted", "refused", "forced"], wall_s=(300, 3000),
             outside=["true thread interleavings inside add_transaction (lock): handler granularity only",
